@@ -93,6 +93,9 @@ class LiteralToken(RegexpBaseToken):
                 real_value = float(self.value[0])
             else:
                 real_value = int(self.value[2])
+                if real_value > 2 ** 53:
+                    # Excel numbers are doubles: a whole number beyond 2**53 is the double nearest to it
+                    real_value = float(real_value)
             real_value = str(real_value)
         elif self.value[1] or self.value[0] == '""':
             real_value = repr(self.value[1])
